@@ -18,7 +18,11 @@ CONSTANTS Shapes,      \* block shapes: [ntx, votes, btp -> {"e","c"}]; patch li
 
 BodyParts == {"ptx", "ntx", "votes", "btp"}
 Parts == BodyParts \cup {"nsf"}
-Sources == {"X", "Y", "E", "G"}     \* G: bytes that are not an encoding of such a part at all
+Sources == {"X", "Y", "E", "G", "N"}
+\* G: bytes that are not an encoding of such a part at all.
+\* N: X's own vote list written in a NON-CANONICAL way (bytes after the list, the optional empty field written out) under a
+\*    header that commits to the hash of exactly those bytes: the decoded list re-encodes canonically, so the decoded block
+\*    could not have the votes hash and the id of the header it came from - it must be rejected
 Readers == {"seekable", "stream"}      \* how the bytes arrive: a buffer that can seek, or a stream (version is peeked)
 NoDamage == [class |-> "none", k |-> 0]
 \* classes of malformed streams: cut at the boundary after top-level field k (k = NHeader + NBody is the whole
@@ -52,6 +56,7 @@ Content(p) ==
   CASE src[p] = "X" -> Own(x, p)
     [] src[p] = "E" -> "e"
     [] src[p] = "G" -> "g"
+    [] src[p] = "N" -> "n"
     [] src[p] = "Y" -> (IF p = "nsf" THEN Own(y, p)
                         ELSE IF p = "ptx" THEN (IF y.ntx = "e" THEN "e" ELSE "o")   \* Y's transactions as patch list
                         ELSE IF Own(y, p) = "e" THEN "e" ELSE "o")
@@ -75,7 +80,8 @@ Init == /\ x \in Shapes /\ y \in Shapes /\ src = [p \in Parts |-> "X"]
         /\ dmg = NoDamage /\ done = FALSE /\ hist = <<>>
 Swap(p, s) == /\ ~done /\ dmg = NoDamage /\ src[p] = "X" /\ s # "X"
               /\ (s = "G" => (p \in BodyParts /\ \A q \in Parts : src[q] = "X"))   \* garbage in one part of an otherwise honest stream
-              /\ \A q \in Parts : src[q] # "G"
+              /\ (s = "N" => (p = "votes" /\ \A q \in Parts : src[q] = "X"))
+              /\ \A q \in Parts : src[q] \notin {"G", "N"}
               /\ src' = [src EXCEPT ![p] = s] /\ UNCHANGED <<x, y, dmg, done, hist>>
 Damage(d) == /\ ~done /\ dmg = NoDamage /\ \A p \in Parts : src[p] = "X"
              /\ dmg' = d /\ UNCHANGED <<x, y, src, done, hist>>
@@ -101,7 +107,7 @@ RoundTrip == [][(Stepped /\ (\A p \in Parts : src[p] = "X") /\ dmg = NoDamage) =
 Binding == [][(Stepped /\ dmg = NoDamage /\ Last.res = "ok") => \A p \in Parts : Content(p) = Own(x, p)]_vars
 \* replacing a non-empty part by anything else, or an empty part by something, is always rejected
 ForeignPartRejected ==
-  [][(Stepped /\ dmg = NoDamage /\ \E p \in BodyParts : Content(p) \in {"o", "g"}) => Last.res = "reject"]_vars
+  [][(Stepped /\ dmg = NoDamage /\ \E p \in BodyParts : Content(p) \in {"o", "g", "n"}) => Last.res = "reject"]_vars
 \* a stream that ends early is rejected
 \* a malformed proposer is an error for the receiver of the block, whatever else is consistent
 MalformedProposerRejected ==
